@@ -20,8 +20,10 @@ EXPLANATION = (
     "marginals of the same emd2 call (u with the first, v with the second; the k2 update is the mirror of the k1 update). "
     "(g) the returned gradient IS the derivative of the returned score: evaluate() is translated to index-notation terms "
     "(gcverif.e8_numpy), the score term is differentiated symbolically with respect to y[m,j] and compared, as canonical forms "
-    "(gcverif.e8_index), with the gradient term; a difference that does not depend on j (a per-sample constant) is accepted "
-    "since it vanishes along the simplex. This covers all 6 classes x 2 modes including the Wasserstein loops (emd2 as an opaque "
+    "(gcverif.e8_index), with the gradient term. The clip mask is a symbolic 0/1 tensor m: the predictions reaching the formulas are "
+    "clip(y), so the derivative with respect to y[a,j] is m[a,j] * dS/dp[a,j] and the returned gradient must equal it exactly - a "
+    "per-sample constant is NOT accepted (it cancels along the simplex only in rows without a clipped entry) and the mask must not "
+    "enter a reduction over samples. This covers all 6 classes x 2 modes including the Wasserstein loops (emd2 as an opaque "
     "function with its dual potentials) and the MMD zero-distance masks; all n and K at once (sizes are symbols).")
 from ..e8_gemini import ASSUMPTIONS as E8_ASSUMPTIONS
 ADOPT = [("C13", ["C13-d"], "a score (and its gradient) is a function of the predictions and the affinity alone: a value cached on the objective and reused on the evidence of identity or shape makes it depend on earlier calls")]
@@ -125,7 +127,7 @@ def run(pm, ctx):
              "multiplied by the clip mask of the raw predictions", floor=12)
     ctx.rule("C02-d", "return_grad=True returns (score, gradient) on every path; otherwise a bare score", floor=6)
     ctx.rule("C02-e", "Wasserstein gradients must use the dual potential of the marginal they differentiate", floor=3)
-    ctx.rule("C02-g", "the returned gradient is the symbolic derivative of the returned score (up to a per-sample constant)", floor=12)
+    ctx.rule("C02-g", "the returned gradient is the symbolic derivative of the returned score, with the clip mask as a 0/1 tensor", floor=12)
     gradient_is_derivative(pm, ctx)
     for cname in GEMINI_CLASSES:
         ci, f = evaluate_func(pm, cname)
